@@ -14,7 +14,7 @@ modes
   mixed  <out_z3> <out_sympy> <nz3> <nsympy> <seed> <stride>   z3rand then sympy in one process (stride > 1 = quick tier: every stride-th interval
                                                  of the SymPy family, every stride-th function type and one premise set of the history family)
   event  <in.ndjson> <out.ndjson>                re-run recorded events (replay of a finding)
-Events: {tid, key, solver, goal, prems, acc "yes"|"no"|"exc", exc, flag (z3wrapper.check_z3), src}.
+Events: {tid, key, solver, goal, prems, acc "yes"|"no"|"exc"|"timeout" (Z3 interrupted by the driver's watchdog), exc, flag (z3wrapper.check_z3), src}.
 goal / prems are structural projections of the REAL terms given to the bridge (applied form of spec/C06_Sem.tla).
 No verdict is computed here.
 """
@@ -231,41 +231,71 @@ class Out:
         from prover import z3wrapper
         self.z3w = z3wrapper
 
-    def emit(self, solver, goal_t, prem_ts, acc, exc, src):
+    def emit(self, solver, goal_t, prem_ts, acc, exc, src, route=""):
         g = enc(goal_t)
         ps = [enc(p) for p in prem_ts]
         self.tid += 1
         fv = {}
         for j in ps + [g]:
             all_vars(j, fv)
-        key = "%s: %s [%s]" % (solver, " ; ".join([show(p) for p in ps] + ["|- " + show(g)]),
+        key = "%s%s: %s [%s]" % (solver, "[" + route + "]" if route else "", " ; ".join([show(p) for p in ps] + ["|- " + show(g)]),
                                ", ".join("%s::%s" % kv for kv in sorted(fv.items())))
         ev = {"tid": self.tid, "key": key[:500], "solver": solver, "goal": g, "prems": ps, "acc": acc, "exc": exc[:200],
-              "flag": bool(self.z3w.check_z3), "src": src}
+              "flag": bool(self.z3w.check_z3), "src": src, "route": route}
         self.f.write(json.dumps(ev, separators=(",", ":")) + "\n")
 
     def close(self):
         self.f.close()
 
 
-def call(fn, watchdog=False):
-    timer = None
-    if watchdog:
-        # harness safety only: interrupt Z3 when it does not answer (check() then returns unknown = "not solved")
+class Watchdog:
+    """Harness safety only (z3wrapper.solve has no time limit): when Z3 has not answered after the limit it is interrupted
+    (check() then returns unknown = "not solved"), again every half second until the call returns; if it still has not
+    returned after HARD_LIMIT_S the driver process gives up with exit code 3 (a machinery failure, never a verdict)."""
+    HARD_LIMIT_S = 120.0
+
+    def __init__(self):
         import threading
+        self.done = threading.Event()
+        self.fired = False
+        self.t = threading.Thread(target=self.run, daemon=True)
+        self.t.start()
+
+    def run(self):
+        import os
+        import time
         import z3
-        timer = threading.Timer(Z3_TIMEOUT_MS / 1000.0 + 1.0, lambda: z3.main_ctx().interrupt())
-        timer.daemon = True
-        timer.start()
+        if self.done.wait(Z3_TIMEOUT_MS / 1000.0 + 1.0):
+            return
+        t0 = time.time()
+        while not self.done.is_set():
+            self.fired = True
+            z3.main_ctx().interrupt()
+            if time.time() - t0 > self.HARD_LIMIT_S:
+                sys.stderr.write("c06: Z3 did not react to interrupts for %d s; giving up\n" % self.HARD_LIMIT_S)
+                sys.stderr.flush()
+                os._exit(3)
+            self.done.wait(0.5)
+
+    def stop(self):
+        self.done.set()
+
+
+def call(fn, watchdog=False):
+    wd = Watchdog() if watchdog else None
     try:
         r = fn()
     except AssertionError as e:
+        if wd is not None and wd.fired:
+            return "timeout", "interrupted by the driver's watchdog; AssertionError: " + str(e)
         return "no", "AssertionError: " + str(e)
     except Exception as e:  # noqa
         return "exc", "%s: %s" % (type(e).__name__, e)
     finally:
-        if timer is not None:
-            timer.cancel()
+        if wd is not None:
+            wd.stop()
+    if wd is not None and wd.fired and r is not True and not isinstance(r, Thm):
+        return "timeout", "interrupted by the driver's watchdog"
     if r is True:
         return "yes", ""
     if r is False:
@@ -292,6 +322,17 @@ def run_z3(out, goal_t, prem_ts, src, routes=("solve",)):
         out.emit("z3.solve", full, [], acc, exc, src)
         if acc == "exc" and not src.endswith(":after-exc"):
             follow_up(out, enc(full), src)
+    if "giveup" in routes:
+        # the same goal with a resource limit under which Z3 gives up ("unknown") on everything but trivial goals:
+        # a solver that gives up has not proved anything
+        import z3
+        full = implies_term(prem_ts, goal_t)
+        z3.set_param("rlimit", 10)
+        try:
+            acc, exc = call(lambda: z3w.solve(full), watchdog=True)
+        finally:
+            z3.set_param("rlimit", 0)
+        out.emit("z3.solve", full, [], acc, exc, src, route="giveup")
     if "macro" in routes:
         macro = theory.global_macros["z3"]
         prevs = [Thm(p, p) for p in prem_ts]
@@ -486,6 +527,8 @@ def mode_z3vec(vec_path, out_path, k, n):
                 run_z3(out, build(concl), [build(p) for p in prems], src, routes=("macro",))
             if v["id"] % 7 == 0:
                 run_z3(out, t, [], src, routes=("proof",))
+            if v["id"] % 10 == 2:
+                run_z3(out, t, [], src, routes=("giveup",))
             cj = clash_variant(j)
             if cj is not None and v["id"] % 3 == 1:      # same goal, binders named like a free variable of the goal
                 run_z3(out, build(cj), [], src + ":clash", routes=("solve",))
@@ -650,6 +693,53 @@ def z3_family(thin=1):
     ]
     gs += iv
     gs += function_equalities(thin)
+    gs += numeral_quotients(thin)
+    gs += nested_shared_subterms(thin)
+    return gs
+
+
+def numeral_quotients(thin=1):
+    """quotients of numeral EXPRESSIONS (not numerals in normal form): the translation must compute them exactly"""
+    gs = []
+    r = V("r", "real")
+    n = lambda k: N("real", k)  # noqa: E731
+    for a, b, c in ((1, 2, 1), (1, 1, 2), (2, 3, 4), (1, 4, 5), (5, 3, 3), (1, 3, 7))[::thin]:
+        d = b + c
+        for e in (Op("real_divide", "real", n(a), Op("plus", "real", n(b), n(c))),
+                  Op("real_divide", "real", Op("plus", "real", n(a), n(0)), Op("plus", "real", n(b), n(c)))):
+            rd = Op("times", "real", r, n(d))
+            for rel in ("less", "equals", "greater", "less_eq"):
+                gs.append(Op("implies", "bool", Rel("equals", r, e), Rel(rel, rd, n(a))))
+            gs.append(Rel("equals", Op("times", "real", e, n(d)), n(a)))
+            gs.append(Rel("less", Op("times", "real", e, n(d)), n(a)))
+            gs.append(Op("implies", "bool", Rel("less", r, e), Rel("less", rd, n(a))))
+            gs.append(Op("implies", "bool", Rel("less_eq", e, r), Rel("less_eq", n(a), rd)))
+    z = Op("real_divide", "real", n(1), Op("minus", "real", n(1), n(1)))
+    gs += [Rel("equals", z, n(0)), Op("implies", "bool", Rel("equals", r, z), Rel("equals", r, n(0))),
+           Op("implies", "bool", Rel("equals", r, z), Rel("less", n(0), r))]
+    return gs
+
+
+def nested_shared_subterms(thin=1):
+    """two quantifiers over one type, each with a nested quantifier to the LEFT of the occurrences of its own variable, the
+    nested body being the same de Bruijn term as the atom about the outer variable:
+        (Q1 x. (Qi y. A y) o1 A x)  op  (Q2 x. (Qi y. A y) o2 A x)"""
+    gs = []
+    for T in (("nat",) if thin > 1 else ("nat", "int")):
+        k = V("k", T)
+        atoms = [lambda v: Rel("less", v, N(T, 1)),
+                 lambda v: Rel("greater_eq", Op("plus", T, v, k), N(T, 1)),
+                 lambda v: Rel("equals", App("f", T, v), N(T, 0))]
+        for A in (atoms[:2] if thin > 1 else atoms):
+            for qi in ("exists", "all"):
+                for o1, o2 in (("conj", "conj"), ("conj", "implies"), ("implies", "conj"), ("disj", "disj"))[:4 // thin]:
+                    for q1 in ("exists", "all"):
+                        for q2 in ("exists", "all"):
+                            for op in ("implies", "disj", "conj"):
+                                def side(q, o):
+                                    inner = Q(qi, "y", T, A(B(0, T)))
+                                    return Q(q, "x", T, Op(o, "bool", inner, A(B(0, T))))
+                                gs.append(Op(op, "bool", side(q1, o1), side(q2, o2)))
     return gs
 
 
@@ -830,6 +920,8 @@ def mode_z3rand(out_path, n, seed, do_setup=True, thin=1):
         cj = clash_variant(j)
         if cj is not None and i % 3 == 0:
             run_z3(out, build(cj), [], "family:%d:clash" % i, routes=("solve",))
+        if i % 6 == 1:
+            run_z3(out, t, [], "family:%d" % i, routes=("giveup",))
     for i, (ps, c) in enumerate(history_family(thin)):
         # goals tried one after the other in this process: a failing step, then its premises as goals (follow_up)
         run_z3(out, build(c), [build(p) for p in ps], "history:%d" % i, routes=("solve", "macro"))
@@ -940,6 +1032,48 @@ def sympy_family(stride=1):
     both(rnum(1), rnum(2))
     both(rnum(Fraction(1, 2)), rdiv(rnum(2), rnum(4)))
     both(rpow(x, 0), rnum(1))
+    # subtraction of numerals at nat (truncated), int and real
+    for T in ("nat", "int", "real"):
+        c = lambda v: N(T, v)  # noqa: E731
+        for a, b in ((2, 3), (5, 3), (3, 3), (0, 1)):
+            d = Op("minus", T, c(a), c(b))
+            for g in (Rel("less", d, c(0)), Rel("equals", d, c(0)), Rel("greater_eq", d, c(0)), Rel("less_eq", d, c(a)),
+                      Rel("equals", Op("plus", T, d, c(b)), c(a)), Rel("less", Op("plus", T, d, c(b)), c(b)),
+                      Rel("equals", Op("times", T, d, c(2)), Op("minus", T, c(2 * a), c(2 * b)))):
+                out.append((g, []))
+                out.append((Not(g), []))
+    # sqrt (HOL: sign-preserving), exp and log (judged through exact squares and signs)
+    sq = lambda a: Op("sqrt", R, a)  # noqa: E731
+    ex = lambda a: Op("exp", R, a)  # noqa: E731
+    lg = lambda a: Op("log", R, a)  # noqa: E731
+    for v in (-1, 4, -4, 0, Fraction(1, 4), 2):
+        both(rmul(sq(rnum(v)), sq(rnum(v))), rnum(v))
+        both(rpow(sq(rnum(v)), 2), rnum(v))
+    both(sq(rnum(-4)), rnum(-2))
+    both(sq(rnum(4)), rnum(2))
+    both(Op("abs", R, sq(rnum(-1))), rnum(1))
+    both(rmul(sq(x), sq(x)), x)
+    both(sq(rmul(x, x)), x)
+    both(sq(rmul(x, x)), Op("abs", R, x))
+    both(ex(lg(x)), x)
+    both(lg(ex(x)), x)
+    both(ex(x), rnum(0))
+    both(rmul(ex(x), ex(rnum(0))), rnum(0))
+    for rel in ("less", "less_eq", "greater", "greater_eq"):
+        out.append((Rel(rel, sq(x), rnum(0)), []))
+        out.append((Rel(rel, ex(x), rnum(0)), []))
+        out.append((Rel(rel, ex(lg(x)), rnum(0)), []))
+        out.append((Rel(rel, rmul(lg(rnum(-1)), lg(rnum(-1))), rnum(0)), []))
+        out.append((Rel(rel, rmul(sq(rnum(-1)), sq(rnum(-1))), rnum(0)), []))
+        out.append((Rel(rel, rpow(lg(x), 2), rnum(0)), []))
+    for lo, hi in ((1, 2), (0, 1), (-1, 1)):
+        for closed in (True, False):
+            pr = [mem_interval(x, lo, hi, closed)]
+            out.append((Rel("equals", ex(lg(x)), x), pr))
+            out.append((Rel("greater", ex(lg(x)), rnum(0)), pr))
+            out.append((Rel("greater_eq", rmul(sq(x), sq(x)), rnum(0)), pr))
+            out.append((Rel("greater_eq", sq(x), rnum(0)), pr))
+            out.append((Not(Rel("equals", rsub(rmul(sq(x), sq(x)), x), rnum(1))), pr))
     for rel in ("less", "less_eq", "greater", "greater_eq"):
         out.append((Rel(rel, rnum(1), rnum(2)), []))
         out.append((Rel(rel, rnum(2), rnum(2)), []))
@@ -966,6 +1100,12 @@ def sympy_family(stride=1):
         goals.append(Not(Rel("equals", rdiv(rnum(1), x), rnum(2))))
         goals.append(Not(Rel("equals", x, y)))
         goals.append(Rel("greater_eq", radd(x, y), y))
+        # a second variable in a denominator that cancels
+        goals.append(Rel("greater", rdiv(rmul(y, x), y), rnum(0)))
+        goals.append(Rel("greater_eq", rdiv(rmul(y, x), y), rnum(0)))
+        goals.append(Not(Rel("equals", rmul(rdiv(x, y), y), rnum(0))))
+        goals.append(Rel("greater_eq", rsub(radd(x, rdiv(y, y)), rnum(1)), rnum(0)))
+        goals.append(Rel("less_eq", rmul(x, rdiv(y, y)), rnum(3)))
         # the same goal on the open and on the closed interval with the same end points, one right after the other in
         # one process (open first for every other interval): the verdict must not depend on the previous query
         order = (False, True) if idx % 2 == 0 else (True, False)
@@ -1099,8 +1239,7 @@ def mode_event(in_path, out_path):
         s = e["solver"]
         if s.startswith("z3."):
             if s == "z3.solve":
-                acc, exc = call(lambda: out.z3w.solve(implies_term(ps, g)), watchdog=True)
-                out.emit(s, implies_term(ps, g), [], acc, exc, e.get("src", "replay"))
+                run_z3(out, g, ps, e.get("src", "replay"), routes=("giveup",) if e.get("route") == "giveup" else ("solve",))
             else:
                 run_z3(out, g, ps, e.get("src", "replay"), routes=(s.split(".")[1],))
         else:
@@ -1117,7 +1256,7 @@ def main(argv):
     elif mode == "sympy":
         mode_sympy(argv[1], int(argv[2]), int(argv[3]))
     elif mode == "mixed":                        # one process (one theory load) for both input-independent drivers
-        setup()
+        setup("transcendentals")                 # misc (intervals) + exp, log, sqrt
         mode_z3rand(argv[1], int(argv[3]), int(argv[5]), do_setup=False, thin=int(argv[6]))
         mode_sympy(argv[2], int(argv[4]), int(argv[5]), do_setup=False, stride=int(argv[6]))
     elif mode == "event":
